@@ -1280,6 +1280,34 @@ def root_identity_probe(ctx, rng):
             shutil.rmtree(root, ignore_errors=True)
 
 
+def optimised_interpreter_probe(ctx):
+    """The same short history (two identities, an extra key, del_key, del_identity, a new identity) in a child interpreter started
+    normally and one started with -O: what is left in the store is the same - one identity's rows and files, nothing of the deleted."""
+    import subprocess
+    import sys
+    import json as _json
+    res = {}
+    for opt in ((), ('-O',)):
+        try:
+            r = subprocess.run([sys.executable, *opt, '-m', 'nvf.c15_opt'], capture_output=True, text=True, timeout=120, cwd=os.path.dirname(os.path.dirname(os.path.abspath(__file__))),
+                               env=dict(os.environ))
+            res[opt] = _json.loads(r.stdout.strip().splitlines()[-1])
+        except Exception as e:   # noqa
+            res[opt] = {'error': repr(e)}
+        ctx.event('history-in-a-child-interpreter' + ('-with--O' if opt else ''))
+    ctx.case(('optimised-interpreter',), nontrivial=True)
+    a, b = res[()], res[('-O',)]
+    w = {'normal': a, 'with -O': b}
+    if 'error' in a or 'error' in b:
+        ctx.report('optimised-interpreter-probe-error', f'{a.get("error")} / {b.get("error")}', w)
+        return
+    exp = {'alice_keys_after_del_key': 1, 'key_rows': 1, 'cert_rows': 1, 'private_key_files': 1, 'identities': 1, 'carol_keys': 1}
+    for lab, got in (('normal', a), ('with -O', b)):
+        bad = {k: got.get(k) for k, v in exp.items() if got.get(k) != v}
+        if bad:
+            ctx.report('orphan-rows-or-files:interpreter-' + ('optimised' if lab != 'normal' else 'normal'), f'after del_key / del_identity / a new identity in an interpreter started {lab}: {bad}, expected {exp}', w)
+
+
 def run(ctx):
     ctx.rule = RULE
     rng = ctx.rng
@@ -1288,6 +1316,8 @@ def run(ctx):
     if ctx.shard == 0:
         stale_views(ctx, rng)
         root_identity_probe(ctx, rng)
+        optimised_interpreter_probe(ctx)
+        ctx.need_event('history-in-a-child-interpreter-with--O')
         ctx.need_event('signer-for-the-root-identity-by-name')
         ctx.need_event('stale-identity-view-probed')
     if ctx.shard == 0:
